@@ -55,7 +55,7 @@ type AdvScenario struct {
 	Sched      []uint16 `json:"sched"`
 }
 
-var advHTTP = []string{"get-acc", "get-chars", "put-val", "put-ev", "pairings-add", "pairings-remove", "pairings-list", "resource", "identify"}
+var advHTTP = []string{"path-variant", "get-acc", "get-chars", "put-val", "put-ev", "pairings-add", "pairings-remove", "pairings-list", "resource", "identify"}
 var advSetup = []string{"ps-m1", "ps-m3-right", "ps-m3-wrong", "ps-m3-a0", "ps-m3-aN", "ps-m3-noA", "ps-m3-a0-pubproof", "ps-m3-a0-pubproof", "ps-m3-longA", "ps-m3-badprooflen", "ps-m5-weak", "ps-m5-genuine", "ps-m5-tampered", "ps-m5-short", "ps-m5-zero", "ps-m5-nilk", "ps-m5-random", "ps-m5-othersig", "ps-m5-othername", "ps-m5-replay", "ps-unknown-state", "ps-unknown-method"}
 var advVerify = []string{"pv-m1", "pv-m1-short", "pv-m3-genuine", "pv-m3-wrongkey", "pv-m3-unknown", "pv-m3-self", "pv-m3-stale", "pv-m3-reordered", "pv-m3-replay", "pv-m3-wrongseal", "pv-m3-short", "pv-m3-badtlv", "pv-unknown-state"}
 var advCipher = []string{"enc-get-own", "enc-get-zero", "enc-get-random", "enc-replay-L", "plain-after"}
@@ -400,6 +400,19 @@ func (aw *advWorld) do(p *peerConn, op AdvOp) *advResult {
 	switch op.Kind {
 	case "get-acc":
 		p.request("GET", "/accessories", "", nil, r)
+	case "path-variant":
+		// other spellings of the protected paths and other methods
+		paths := []string{"/accessories/", "//accessories", "/./accessories", "/accessories?x=1", "/ACCESSORIES", "/accessories/../accessories", "/characteristics/?id=1.9", "/characteristics?id=1.9&x=%00", "/pairings/", "/resource/", "/accessories#f"}
+		methods := []string{"GET", "POST", "PUT", "DELETE", "HEAD", "OPTIONS"}
+		m := methods[(op.Arg/16)%len(methods)]
+		var body []byte
+		if m == "POST" || m == "PUT" {
+			body = []byte(`{"characteristics":[{"aid":1,"iid":9,"value":true,"ev":true}]}`)
+		}
+		if m == "HEAD" {
+			m = "GET"
+		}
+		p.request(m, paths[op.Arg%len(paths)], ref.CTypeJSON, body, r)
 	case "get-chars":
 		ids := []string{"1.2", "1.3", "1.4", "1.5", "1.6", "1.7", "1.9", "2.9", "1.10", "7.7"}
 		k := 1 + op.Arg%4
@@ -1278,7 +1291,7 @@ func (aw *advWorld) finalChecks(allDone bool) {
 	if aw.fail != "" {
 		return
 	}
-	protectedKinds := map[string]bool{"get-acc": true, "get-chars": true, "put-val": true, "put-ev": true, "pairings-add": true, "pairings-remove": true, "pairings-list": true, "resource": true, "enc-get-own": true, "enc-get-zero": true, "enc-get-random": true, "enc-replay-L": true, "plain-after": true}
+	protectedKinds := map[string]bool{"path-variant": true, "get-acc": true, "get-chars": true, "put-val": true, "put-ev": true, "pairings-add": true, "pairings-remove": true, "pairings-list": true, "resource": true, "enc-get-own": true, "enc-get-zero": true, "enc-get-random": true, "enc-replay-L": true, "plain-after": true}
 	for _, r := range aw.results {
 		slotConnVerified := false
 		for _, p := range aw.slots {
